@@ -343,6 +343,9 @@ class Evaluator:
         from . import prims as _p
         if node.id in _p.SPEC_CONSTS:
             return _p.SPEC_CONSTS[node.id]()
+        if self.ctx.spec_mode and self.ctx.hint_type(node.id) is not None:
+            # a local that is not bound (yet) on this path: arbitrary value of its declared type
+            return fresh(self.ctx.hint_type(node.id), 'unbound_' + node.id)
         consts = self.ctx.module.get('constants', {})
         if node.id in consts:
             return self.eval(state, consts[node.id])
@@ -371,7 +374,39 @@ class Evaluator:
             if r is not None:
                 self.ctx.trusted_used.add('fstring:' + template)
                 return r
-        return fresh(T.NAME, 'fstr')
+        return self._fstr_generic(node, vals)
+
+    def _fstr_generic(self, node, vals):
+        """an f-string without a specific model is an uninterpreted *function* of its parts
+        (A-STR, values.fstr_function): the same template applied to equal names / integers
+        yields the same string; parts of any other type become an unconstrained argument"""
+        from .values import fstr_function
+        segments, kinds, args = [], [], []
+        it = iter(vals)
+        for v in node.values:
+            if isinstance(v, ast.FormattedValue):
+                pv = next(it)
+                spec = ast.unparse(v.format_spec) if v.format_spec is not None else ''
+                segments.append(f'\x00{v.conversion}:{spec}')
+                if pv is not None and pv.ty == T.NAME and not spec:
+                    kinds.append('name')
+                    args.append(pv.term)
+                elif pv is not None and pv.ty == T.INT:
+                    kinds.append('int')
+                    args.append(pv.term)
+                else:
+                    kinds.append('any')
+                    args.append(z3.Int(fresh_name('fpart')))
+            elif isinstance(v, ast.Constant) and isinstance(v.value, str):
+                if segments and not segments[-1].startswith('\x00'):
+                    segments[-1] += v.value
+                else:
+                    segments.append(v.value)
+            else:
+                return fresh(T.NAME, 'fstr')
+        if not kinds:
+            return literal(''.join(segments))
+        return SymVal(T.NAME, fstr_function(segments, kinds)(*args))
 
     def e_UnaryOp(self, state, node):
         v = self.eval(state, node.operand)
@@ -452,7 +487,10 @@ class Evaluator:
             raise Unsupported("arithmetic on abstracted value")
         if not (is_num(a.ty) and is_num(b.ty)):
             if isinstance(op, ast.Add) and a.ty == T.NAME and b.ty == T.NAME:
-                return fresh(T.NAME, 'strcat')
+                r = fresh(T.NAME, 'strcat')
+                from .values import strlen
+                state.assume(strlen(r.term) == strlen(a.term) + strlen(b.term))
+                return r
             if isinstance(op, ast.Sub) and a.ty[0] == 'set' and b.ty[0] == 'set':
                 return self.set_binop(state, 'diff', a, b)
             if isinstance(op, ast.BitOr) and a.ty[0] == 'set' and b.ty[0] == 'set':
@@ -524,12 +562,17 @@ class Evaluator:
         na, nb = seq_len(a), seq_len(b)
         state.assume(seq_len(r) == na + nb,
                      z3.ForAll([i], z3.Implies(z3.And(0 <= i, i < na), seq_at(r, i) == seq_at(a, i))),
-                     z3.ForAll([i], z3.Implies(z3.And(0 <= i, i < nb), seq_at(r, na + i) == seq_at(b, i))))
+                     z3.ForAll([i], z3.Implies(z3.And(0 <= i, i < nb), seq_at(r, na + i) == seq_at(b, i))),
+                     # same fact indexed by the position in r (usable trigger r[i])
+                     z3.ForAll([i], z3.Implies(z3.And(na <= i, i < na + nb),
+                                               seq_at(r, i) == seq_at(b, i - na)),
+                               patterns=[seq_at(r, i)]))
         return r
 
     def set_binop(self, state, kind, a, b):
         k = z3.Const(fresh_name('sk'), T.sort_of(a.ty[1]))
-        r = fresh(a.ty, 'set' + kind)
+        from .values import canon
+        r = canon(a.ty, 'set' + kind, a.term, b.term)    # a function of the two operands
         ha, hb = set_has(a)[k], set_has(b)[k]
         body = {'diff': z3.And(ha, z3.Not(hb)), 'union': z3.Or(ha, hb), 'inter': z3.And(ha, hb)}[kind]
         state.assume(z3.ForAll([k], set_has(r)[k] == body), *wf(r))
@@ -891,6 +934,15 @@ class Evaluator:
                 bound.append(v)
                 guards.append(membership_array(c)[v])
                 bind_target(tgt, SymVal(c.ty[1], v))
+            elif c.ty[0] == 'rec' and '__rest__' in T.RECORDS[c.ty[1]]:
+                # heterogeneous dict: its keys are the fixed fields plus the keys of the rest
+                flds = T.RECORDS[c.ty[1]]
+                rest = select(c, ('fld', '__rest__'))
+                v = z3.Const(fresh_name('q_k'), T.sort_of(rest.ty[1]))
+                bound.append(v)
+                guards.append(z3.Or(dict_dom(rest)[v],
+                                    *[v == literal(f).term for f in flds if f != '__rest__']))
+                bind_target(tgt, SymVal(rest.ty[1], v))
             else:
                 raise Unsupported(f"quantification over {T.show(c.ty)}")
         for cond in comp.ifs:
